@@ -650,3 +650,40 @@ def result_tests(unit):
                 if (op, cv(n[o_])) not in (OKZ if cn in ZERO_OR_MINUS1 else OKFD):
                     bad.append((f, n, "%s (...) %s %d" % (cn, op, cv(n[o_]))))
     return seen, bad
+
+
+def destroy_before_free(fn, destroy_callee):
+    """In an object's free function the native object is destroyed before the memory goes: on every path with a non-NULL argument
+    `destroy_callee (&obj->...)` is called and `p_free (obj)` only afterwards.  (pthread_cond_destroy is more than bookkeeping: glibc
+    makes it wait until every waiter that was already woken has left the condition variable, so freeing without it pulls the memory
+    from under threads the last broadcast woke.)  -> list of (line, what) problems"""
+    p0 = fn.param_names()[0] if fn.param_names() else None
+    bad = []
+
+    def on_stmt(st, b, i, stmt):
+        facts, destroyed, freed = st
+        for c in calls(stmt):
+            if c.get("callee") == destroy_callee and c.get("args") and root_var(c["args"][0]) == p0:
+                if freed:
+                    bad.append((line(c), "%s runs after the object was released" % destroy_callee))
+                destroyed = True
+            if c.get("callee") == "p_free" and c.get("args") and root_var(c["args"][0]) == p0 and strip_casts(c["args"][0])["k"] == "ref":
+                if not destroyed:
+                    bad.append((line(c), "the object is released without %s having been called on this path" % destroy_callee))
+                freed = True
+        return [(guards.transfer(facts, stmt), destroyed, freed)]
+
+    def on_edge(st, b, to, on):
+        f2 = guards.edge_assume(st[0], b, on)
+        return None if f2 is None else (f2, st[1], st[2])
+    if p0 is None:
+        return [(fn.loc[0], "no parameter")]
+    Flow(fn, [(guards.EMPTY, False, False)], on_stmt, on_edge).run()
+    if not any(c.get("callee") == "p_free" for (b, i, c) in fn.calls()):
+        bad.append((fn.loc[0], "the object is never released"))
+    seen, out = set(), []
+    for x in bad:
+        if x not in seen:
+            seen.add(x)
+            out.append(x)
+    return out
